@@ -175,6 +175,13 @@ EXTRA_SEEDS += [
 ]
 
 
+# work that must not be proportional to the numeric value of a literal
+EXTRA_SEEDS += [
+    "{% if (1..1e18) contains 'a' %}y{% endif %}{% if 'a' in (1..1e18) %}y{% endif %}{% if (1..1e18) contains 2.5 %}y{% endif %}",
+    "{% if (1..1e18) contains nil %}y{% endif %}{% if (1..1e18) contains nosuch %}y{% endif %}{% if (1..1e18) contains 7 %}y{% endif %}",
+]
+
+
 # the interpreter's stack as the competing bound: deep nesting in the source and in the data
 DEEP_CASES = [
     {"template": "{% if true %}" * 2000 + "x" + "{% endif %}" * 2000, "data": {}},
